@@ -1276,6 +1276,19 @@ func (srv *server) initPluginHooks() error {
 		}
 		srv.hooks.OnEnhancedAuth = onEnhancedAuth
 	}
+	if onReAuthWrappers != nil {
+		onReAuth := srv.hooks.OnReAuth
+		if onReAuth == nil {
+			// without a re-authentication hook an AUTH packet after CONNECT is a protocol error
+			onReAuth = func(ctx context.Context, client Client, auth *packets.Auth) (*AuthResponse, error) {
+				return nil, codes.ErrProtocol
+			}
+		}
+		for i := len(onReAuthWrappers); i > 0; i-- {
+			onReAuth = onReAuthWrappers[i-1](onReAuth)
+		}
+		srv.hooks.OnReAuth = onReAuth
+	}
 
 	if onConnectedWrappers != nil {
 		onConnected := srv.hooks.OnConnected
